@@ -94,6 +94,10 @@ def groups_part(ctx, eng, r, exprs, o1, stats):
         rt, gt = mo[2 * j], mo[2 * j + 1]
         if rt.startswith(("HANG", "MODEL-CRASH")):
             continue
+        # "P": the list satisfies the hypothesis [printable] of the round-trip theorems (decided by the extracted printableb)
+        if rt.startswith("P "):
+            stats["lists_printable_per_model"] = stats.get("lists_printable_per_model", 0) + 1
+        rt = rt[2:] if rt[:2] in ("P ", "N ") else rt
         want = "%d %s" % (len(T), hexs(T))
         G = split_groups(T)
         wantg = "OK" + "".join(" " + hexs(g) for g in G)
